@@ -715,7 +715,7 @@ META = {
                   "title/body/other assembly is modelled (C02/OdpGroup.v: each paragraph once; source order only _partial); the RTF regex pre-pass is transcribed as "
                   "brace matchers (fail-closed inventory of _DEST_PATTERNS + two correspondences) but proved only for sources in "
                   "which no pattern matches, otherwise `pre_ok d` is checked per generated document; PDF/DOC/PPT/MSG/EML bodies: "
-                  "third-party text extraction. XLSX: the sheet trimming over ragged rows is modelled and proved (C02/PropsXlsx.v), "
+                  "third-party text extraction. EPUB package level (spine order, content-document names with +, &, @, unicode, sub-directories, literal and percent-encoded hrefs): end-to-end oracle; PPTX reviewer comments and text-less slides: end-to-end oracle. XLSX: the sheet trimming over ragged rows is modelled and proved (C02/PropsXlsx.v), "
                   "the text-table formatting is end-to-end only; mbox text/plain bodies (format=flowed with DelSp absent/no, "
                   "transfer encodings, charsets) and plain-text files in encodings with non-statistical detection (ASCII, UTF-8, "
                   "UTF-16/32 with and without BOM, ISO-2022-JP): end-to-end oracles; 8-bit legacy code pages depend on "
